@@ -90,3 +90,62 @@ func TestWitnesses(t *testing.T) {
 		fmt.Printf("%s  %s :: %s\n", w.id, f.Kind, short(f.Msg))
 	}
 }
+
+// regressions are passing cases kept as regression replays (replay/C12): the
+// nearest well-behaved neighbours of the known findings.
+var regressions = []struct {
+	name, facet string
+	in          Case
+}{
+	{"setproduct-nonempty-unknown", "sound/collection-2", Case{Fn: "setproduct",
+		Args:  []spec.V{lst(spec.String, sv("a")), lst(spec.String, sv("b"))},
+		Weak:  []spec.V{lst(spec.String, sv("a")), {T: spec.List(spec.String), St: spec.Unknown, Ref: &spec.Ref{MinLen: ip(1), MaxLen: ip(2)}}},
+		Kinds: []string{"minlen", "maxlen"}}},
+	{"reverselist-list-unknown-members", "sound/collection-2", Case{Fn: "reverselist",
+		Args:  []spec.V{lst(spec.Number, i64(1), i64(2), i64(3))},
+		Weak:  []spec.V{lst(spec.Number, i64(1), spec.UnknownOf(spec.Number), i64(3))},
+		Kinds: []string{"unrefined"}}},
+	{"merge-unknown-map", "sound/collection-2", Case{Fn: "merge",
+		Args:  []spec.V{{T: spec.Map(spec.String), St: spec.Known, Keys: []string{"k"}, Elems: []spec.V{sv("v")}}},
+		Weak:  []spec.V{spec.UnknownOf(spec.Map(spec.String))},
+		Kinds: []string{"unrefined"}}},
+	{"formatlist-unknown-last-sequence", "sound/format", Case{Fn: "formatlist",
+		Args:  []spec.V{sv("%s%d"), lst(spec.String, sv("a"), sv("b")), lst(spec.Number, i64(1), i64(2))},
+		Weak:  []spec.V{sv("%s%d"), lst(spec.String, sv("a"), sv("b")), lst(spec.Number, spec.UnknownOf(spec.Number), i64(2))},
+		Kinds: []string{"unrefined"}}},
+	{"strlen-prefix", "sound/string-1", Case{Fn: "strlen",
+		Args:  []spec.V{sv("e\u0301x")},
+		Weak:  []spec.V{{T: spec.String, St: spec.Unknown, Ref: &spec.Ref{Null: "notnull", Prefix: sp("\u00e9"), PrefixFull: true}}},
+		Kinds: []string{"prefix"}}},
+	{"jsondecode-prefix-null", "sound/encoding", Case{Fn: "jsondecode",
+		Args:  []spec.V{sv("null")},
+		Weak:  []spec.V{{T: spec.String, St: spec.Unknown, Ref: &spec.Ref{Prefix: sp("nu"), PrefixFull: true}}},
+		Kinds: []string{"prefix"}}},
+	{"jsonencode-nullable-unknown", "sound/encoding", Case{Fn: "jsonencode",
+		Args:  []spec.V{spec.NullOf(spec.String)},
+		Weak:  []spec.V{spec.UnknownOf(spec.String)},
+		Kinds: []string{"unrefined"}}},
+}
+
+func sp(s string) *string { return &s }
+
+// TestRegressions (development aid, VERIF_REGRESS=<dir>) writes the regression replays.
+func TestRegressions(t *testing.T) {
+	dir := os.Getenv("VERIF_REGRESS")
+	if dir == "" {
+		t.Skip("set VERIF_REGRESS=<dir>")
+	}
+	for _, r := range regressions {
+		c := &facet.Ctx{}
+		if err := checkSound(c, r.in); err != nil {
+			t.Errorf("%s: regression case fails: %v", r.name, err)
+			continue
+		}
+		raw, _ := json.Marshal(r.in)
+		rec := facet.FailRecord{Property: "C12", Facet: r.facet, Input: raw}
+		b, _ := json.MarshalIndent(rec, "", " ")
+		if err := os.WriteFile(filepath.Join(dir, r.name+".json"), b, 0o644); err != nil {
+			t.Fatal(err)
+		}
+	}
+}
